@@ -24,17 +24,15 @@ Definition C12_refines_full : Prop :=
 Theorem C12_refines_full_refuted : ~ C12_refines_full.
 Proof. exact (@refines_full_refuted). Qed.
 
-(* ---- refinement on the populations outside the four trigger classes:
-   for every schema graph, population, victim, cache mode and every fuel
-   above the number of rows: no row-level cascade cycle below the victim; the
-   per-class restrict test not triggered by a non-restricting column; and
-   either nothing restricts, or the restriction is the first thing the code
-   meets. *)
+(* ---- refinement on the populations outside the trigger classes that are
+   still open: for every schema graph, population, victim, cache mode and
+   every fuel above the number of rows: no row-level cascade cycle below the
+   victim; and either nothing restricts, or the restriction is the first
+   thing the code meets. *)
 Theorem C12_refines_partial :
   forall dc g st p fuel,
     wf_graph g = true -> wf_state st = true ->
     acyclic_rows g st p ->
-    mixed_trigger g st p = false ->
     (restricted g st (closure g st p) = false \/ immediate_refusal g st p = true) ->
     (fuel > length (all_nodes g st))%nat ->
     destroy dc fuel g st p = destroy_spec dc g st p.
@@ -48,12 +46,12 @@ Theorem C12_refines_guard :
     destroy dc fuel g st p = destroy_spec dc g st p.
 Proof. exact (@refines_partial). Qed.
 
-(* whenever the code's restrict test does not fire on the closure, the whole
-   closure is deleted exactly as specified *)
+(* whenever no row of the closure is referenced through cascade=False, the
+   whole closure is deleted exactly as specified *)
 Theorem C12_refines_unrestricted :
   forall dc g st p fuel,
     wf_graph g = true -> wf_state st = true ->
-    acyclicb g st p = true -> fires g st (closure g st p) = false ->
+    acyclicb g st p = true -> restricted g st (closure g st p) = false ->
     (fuel > length (all_nodes g st))%nat ->
     destroy dc fuel g st p = Done (apply dc g (full g (closure g st p)) st).
 Proof. exact (@refines_ok). Qed.
@@ -63,15 +61,14 @@ Theorem C12_immediate_refusal_clean :
   forall dc g st p f, immediate_refusal g st p = true -> destroy dc (S f) g st p = Raised st.
 Proof. exact (@immediate_refusal_raises). Qed.
 
-(* an integrity error is raised only if the specification refuses or the
-   per-class test was triggered *)
-Theorem C12_raise_only_if_fires :
+(* an integrity error is raised only if the specification refuses *)
+Theorem C12_raise_only_if_restricted :
   forall dc g st p fuel st',
     wf_graph g = true -> wf_state st = true -> acyclicb g st p = true ->
     (fuel > length (all_nodes g st))%nat ->
     destroy dc fuel g st p = Raised st' ->
-    restricted g st (closure g st p) = true \/ mixed_trigger g st p = true.
-Proof. exact (@raise_only_if_fires). Qed.
+    restricted g st (closure g st p) = true.
+Proof. exact (@raise_only_if_restricted). Qed.
 
 (* ---- without any guard but acyclicity: the three possible outcomes *)
 
@@ -122,7 +119,7 @@ Theorem C12_gone :
     (fuel > length (all_nodes g st))%nat ->
     destroy dc fuel g st p = Done st' ->
     forall q, In q (closure g st p) ->
-      row_exists st' q = false /\ (dc = true -> get_found st' q = false).
+      row_exists st' q = false /\ get_found st' q = false.
 Proof. exact (@gone). Qed.
 
 Theorem C12_effect :
@@ -175,8 +172,9 @@ Theorem C12_acyclicb_iff :
   forall g st p, acyclicb g st p = true <-> acyclic_rows g st p.
 Proof. exact (@acyclicb_iff). Qed.
 
-(* ---- where the code leaves the specification (each confirmed on the real
-   code, see findings/C12.json) *)
+(* ---- where the code still leaves the specification (each confirmed on the
+   real code, open in findings/C12.json): partial effects before a refusal,
+   row-level cascade cycles, dependence on the registry order *)
 Theorem C12_partial_cascade_refuted :
   exists g st p st', wf_graph g = true /\ wf_state st = true /\ acyclicb g st p = true /\
     destroy_spec true g st p = Raised st /\
@@ -189,12 +187,6 @@ Theorem C12_partial_links_refuted :
     destroy_spec true g st p = Raised st /\ destroy true 10 g st p = Raised st' /\
     link_table st 0%N = [(1, 1); (1, 2); (2, 2)] /\ link_table st' 0%N = [(2, 2)].
 Proof. exact (@partial_links_refuted). Qed.
-
-Theorem C12_per_class_restrict_refuted :
-  exists g st p, wf_graph g = true /\ wf_state st = true /\ acyclicb g st p = true /\
-    restricted g st (closure g st p) = false /\ mixed_trigger g st p = true /\
-    destroy true 10 g st p = Raised st.
-Proof. exact (@per_class_refuted). Qed.
 
 Theorem C12_cycle_refuted :
   exists g st p, wf_graph g = true /\ wf_state st = true /\ row_exists st p = true /\
@@ -210,11 +202,6 @@ Theorem C12_order_dependent_refuted :
     (exists r, destroy true 10 g st p = Raised r) /\
     (exists r, destroy true 10 g' st' p = Done r /\ table r 0%N = [] /\ table r 1%N = [] /\ table r 2%N = []).
 Proof. exact (@order_refuted). Qed.
-
-Theorem C12_stale_uncached_refuted :
-  exists g st p st', wf_graph g = true /\ wf_state st = true /\ guard_ok g st p = true /\
-    destroy false 10 g st p = Done st' /\ row_exists st' p = false /\ get_found st' p = true.
-Proof. exact (@stale_uncached_refuted). Qed.
 
 (* ---- non-vacuity: a depth-2 cascade (K0#1 <- K1#1 <- K2#1) with null-outs,
    a dangling cascade=None reference, link rows on both sides and held
@@ -241,12 +228,27 @@ Example C12_immediate_nonvacuous :
   destroy true 5 g st (0%N, 1) = Raised st.
 Proof. vm_compute. auto. Qed.
 
+(* the two repaired deviations, now inside the theorems' domain *)
+Example C12_per_class_now_refines :
+  let g := [cl 0 [] []; cl 1 [fk 0 Cascade; fk 0 Restrict] []] in
+  let st := mkst [(0%N, [rw 1 []; rw 2 []]); (1%N, [rw 1 [Some 1; None]; rw 2 [None; Some 2]])] [] [] in
+  guard_ok g st (0%N, 1) = true /\ restricted g st (closure g st (0%N, 1)) = false /\
+  destroy true 10 g st (0%N, 1) = destroy_spec true g st (0%N, 1) /\
+  destroy true 10 g st (0%N, 1) = Done (mkst [(0%N, [rw 2 []]); (1%N, [rw 2 [None; Some 2]])] [] []).
+Proof. exact per_class_now_fine. Qed.
+Example C12_uncached_now_gone :
+  let g := [cl 0 [] []; cl 1 [fk 0 Cascade] []] in
+  let st := mkst [(0%N, [rw 1 []]); (1%N, [rw 1 [Some 1]])] [] [(0%N, 1); (1%N, 1)] in
+  exists st', destroy false 10 g st (0%N, 1) = Done st' /\
+    get_found st' (0%N, 1) = false /\ get_found st' (1%N, 1) = false.
+Proof. exact uncached_now_gone. Qed.
+
 Print Assumptions C12_refines_full_refuted.
 Print Assumptions C12_refines_partial.
 Print Assumptions C12_refines_guard.
 Print Assumptions C12_refines_unrestricted.
 Print Assumptions C12_immediate_refusal_clean.
-Print Assumptions C12_raise_only_if_fires.
+Print Assumptions C12_raise_only_if_restricted.
 Print Assumptions C12_terminates.
 Print Assumptions C12_done_is_spec.
 Print Assumptions C12_done_restrictors_in_closure.
@@ -260,7 +262,5 @@ Print Assumptions C12_closure_complete.
 Print Assumptions C12_acyclicb_iff.
 Print Assumptions C12_partial_cascade_refuted.
 Print Assumptions C12_partial_links_refuted.
-Print Assumptions C12_per_class_restrict_refuted.
 Print Assumptions C12_cycle_refuted.
 Print Assumptions C12_order_dependent_refuted.
-Print Assumptions C12_stale_uncached_refuted.
